@@ -424,6 +424,52 @@ func (e *c03Env) verifiers(tok string) string {
 	return "[" + strings.Join(ok, ",") + "]"
 }
 
+// the jwk header of a token: which key of the store it is the public half of (K<n>), or which preset JWK, and whether
+// its JSON carries a secret member
+func (e *c03Env) jwkOfToken(tok string) string {
+	msg, err := jws.Parse([]byte(tok))
+	if err != nil || len(msg.Signatures()) != 1 {
+		return "UNPARSEABLE"
+	}
+	jk := msg.Signatures()[0].ProtectedHeaders().JWK()
+	if jk == nil {
+		return "- secret=0"
+	}
+	secret := "0"
+	jb, _ := json.Marshal(jk)
+	var mm map[string]interface{}
+	_ = json.Unmarshal(jb, &mm)
+	for _, k := range []string{"d", "k", "p", "q", "dp", "dq", "qi"} {
+		if _, ok := mm[k]; ok {
+			secret = "1"
+		}
+	}
+	who := "other"
+	var raw interface{}
+	if err := jk.Raw(&raw); err == nil {
+		if sg, ok := raw.(crypto.Signer); ok {
+			raw = sg.Public()
+		}
+		if i := e.pubIndex(raw); i >= 0 && secret == "0" {
+			who = "K" + strconv.Itoa(i)
+		}
+	}
+	if who == "other" {
+		if tp, err := jk.Thumbprint(crypto.SHA256); err == nil {
+			for i := range e.jwks {
+				if e.jwks[i].thumb == fmt.Sprintf("%x", tp) || e.jwks[i].thumb == base64.RawURLEncoding.EncodeToString(tp) {
+					who = "preset:" + e.jwks[i].id
+					if e.jwks[i].secret != (secret == "1") {
+						continue
+					}
+					break
+				}
+			}
+		}
+	}
+	return who + " secret=" + secret
+}
+
 // the audit records written since the last call, canonical: event:message;…  (also fed to the canary scan)
 func (e *c03Env) drainAudit() string {
 	var parts []string
@@ -459,7 +505,7 @@ func (e *c03Env) exec(op map[string]interface{}) (line string) {
 		}
 		a := e.drainAudit()
 		switch op["op"] {
-		case "new", "link", "delete", "migrate", "sign", "resolve", "decrypt", "decryptjwe":
+		case "new", "link", "delete", "migrate", "sign", "resolve", "decrypt", "decryptjwe", "dpopseq":
 			if !strings.HasSuffix(line, " skipped") && !strings.Contains(line, "encrypt-failed") {
 				line += a
 			}
@@ -594,6 +640,33 @@ func (e *c03Env) exec(op map[string]interface{}) (line string) {
 			}
 		}
 		return res
+	case "dpopseq":
+		// the SAME dpop.DPoP handed to SignDPoP for several kids (retry / key rotation between two attempts), optionally
+		// with a jwk header the caller already put on the token (public or PRIVATE JWK)
+		u, _ := url.Parse("https://example.com/token")
+		tok := dpop.New(http.Request{Method: "POST", URL: u})
+		if id := str("preset"); id != "" {
+			for i := range e.jwks {
+				if e.jwks[i].id == id {
+					_ = tok.Headers.Set(jws.JWKKey, e.jwks[i].key)
+					op["presetRaw"] = e.jwks[i].raw
+				}
+			}
+		}
+		var parts []string
+		kl, _ := op["kids"].([]interface{})
+		for _, kv := range kl {
+			kid, _ := kv.(string)
+			t, err := e.client.SignDPoP(ctx, *tok, kid)
+			e.sink("returns", err)
+			if err != nil {
+				parts = append(parts, e.errT(err))
+				continue
+			}
+			e.sinkToken(t)
+			parts = append(parts, "ok verifies="+e.verifiers(t)+" jwk="+e.jwkOfToken(t))
+		}
+		return "dpopseq " + strings.Join(parts, " | ")
 	case "resolve":
 		pk, err := e.client.Resolve(ctx, str("kid"))
 		e.sink("returns", pk, err)
@@ -1159,6 +1232,14 @@ func TestVerifC03(t *testing.T) {
 		for _, k := range append(append([]string{}, kids...), append([]string{"alias0", "alias1", "alias2"}, names...)...) {
 			emit(map[string]interface{}{"op": "sign", "how": "jws", "kid": k})
 			emit(map[string]interface{}{"op": "resolve", "kid": k})
+		}
+		// the same DPoP token signed for two or three kids in a row, with and without a jwk the caller pre-set on it
+		for n := 0; n < 4; n++ {
+			kl := []interface{}{anyKid("alias0", "nobody"), anyKid("alias1")}
+			if r.Intn(3) == 0 {
+				kl = append(kl, anyKid("alias0"))
+			}
+			emit(map[string]interface{}{"op": "dpopseq", "kids": kl, "preset": pick([]string{"", "", "ecPriv", "ecPub", "rsaPriv", "edPriv", "ec384Priv"})})
 		}
 		// every planted / drawn key name (Migrate made them kids): all operations incl. Decrypt with keys of every type
 		emit(map[string]interface{}{"op": "migrate"})
